@@ -262,6 +262,11 @@ def check_bad_arguments(a, info):
         must_raise(lambda: lightmotif.CountMatrix({"A": [1, 2], "C": [1]}), "CountMatrix with ragged columns")
         must_raise(lambda: lightmotif.CountMatrix({}), "CountMatrix without columns")
         must_raise(lambda: lightmotif.CountMatrix({"A": [-1]}), "CountMatrix with a negative count")
+        # a count that does not fit the matrix's 32-bit cells must be refused, not stored as another number
+        for big in (2 ** 32, 2 ** 32 + 5, 2 ** 40, 2 ** 63, 10 ** 30):
+            must_raise(lambda: lightmotif.CountMatrix({"A": [1, big], "C": [0, 0]}), "CountMatrix with a count of %d" % big)
+        must_raise(lambda: lightmotif.CountMatrix({"A": ["3"]}), "CountMatrix with a string count")
+        must_raise(lambda: lightmotif.CountMatrix({"A": [1.5]}), "CountMatrix with a fractional count")
         must_raise(lambda: lightmotif.ScoringMatrix({"A": [1.0, 2.0], "C": [1.0]}), "ScoringMatrix with ragged columns")
         must_raise(lambda: lightmotif.ScoringMatrix({}), "ScoringMatrix without columns")
     elif kind == "bad-method":
